@@ -268,9 +268,10 @@ def run_framing(c):
     return viol, {'packets_framed': framed, 'packets_readback': readback}
 
 
-def rand_names(rng, n):
+def rand_names(rng, n, unicode_share=0.0):
     alpha = 'abcdefghijklmnopqrstuvwxyz0123456789-@._+/='
-    return [''.join(rng.choice(alpha) for _ in range(rng.randint(1, 40))) for _ in range(n)]
+    wide = alpha + '\u00e9\u00fc\u00df\u65e5\u672c\U0001f511'
+    return [''.join(rng.choice(wide if rng.random() < unicode_share else alpha) for _ in range(rng.randint(1, 40))) for _ in range(n)]
 
 
 def run_messages(c):
@@ -287,17 +288,18 @@ def run_messages(c):
         # scalars
         b, i, bl = rng.randrange(256), rng.choice([0, 1, 0x7fffffff, 0x80000000, 0xffffffff, rng.getrandbits(32)]), rng.random() < .5
         st = rng.randbytes(rng.choice([0, 1, 5, 255, 256, 1000]))
-        names = rand_names(rng, rng.choice([1, 1, 2, 5, 30]))
-        enc = WriteBuf().write_byte(b).write_bool(bl).write_int(i).write_string(st).write_list(names).write_flush()
-        ref = bytes([b, 1 if bl else 0]) + wire.u32(i) + wire.string(st) + wire.namelist(names)
+        names = rand_names(rng, rng.choice([1, 1, 2, 5, 30]), unicode_share=0.3)
+        text = ''.join(rng.choice('abc-@\u00e9\u65e5\U0001f511') for _ in range(rng.randint(0, 12)))   # write_string also accepts text (UTF-8)
+        enc = WriteBuf().write_byte(b).write_bool(bl).write_int(i).write_string(st).write_list(names).write_string(text).write_flush()
+        ref = bytes([b, 1 if bl else 0]) + wire.u32(i) + wire.string(st) + wire.namelist(names) + wire.string(text.encode('utf-8'))
         if enc != ref:
             viol.append(_v('C10/scalar-encode-differs', 'byte/bool/int/string/list encoding differs from RFC 4251', got=enc.hex()[:120], want=ref.hex()[:120]))
         rb = ReadBuf(ref)
-        got = (rb.read_byte(), rb.read_bool(), rb.read_int(), rb.read_string(), rb.read_list())
-        if got != (b, bl, i, st, names):
+        got = (rb.read_byte(), rb.read_bool(), rb.read_int(), rb.read_string(), rb.read_list(), rb.read_string().decode('utf-8'))
+        if got != (b, bl, i, st, names, text):
             viol.append(_v('C10/scalar-decode-wrong', 'byte/bool/int/string/list do not decode to the encoded values', got=repr(got)[:200]))
         # whole KEXINIT
-        k = {f: rand_names(rng, rng.choice([0, 1, 3, 12])) for f in wire.KEX_FIELDS}
+        k = {f: rand_names(rng, rng.choice([0, 1, 3, 12]), unicode_share=0.25) for f in wire.KEX_FIELDS}
         k['cookie'] = rng.randbytes(16).hex()
         k['follows'] = rng.random() < .3
         k['reserved'] = rng.choice([0, 0, rng.getrandbits(32)])
